@@ -1035,7 +1035,7 @@ Proof.
   destruct H1 as [D Wt Mt Cv].
   assert (H2 : outer_inv (mx_matched st) (mx_unmatched st) (ft_mix t1 t2)).
   { rewrite Emix. simpl. change (mx_unmatched st) with ([] ++ mx_unmatched st) at 1.
-    apply mix_outer_fold. split; auto. intros u []. }
+    apply mix_outer_fold. split; auto; intros u []. }
   destruct H2 as [D' Wt' Mt' Dn'].
   split.
   - intro r. fold (mixW r).
